@@ -394,3 +394,107 @@ Example aggregate_rows_nonvacuous : forall (fo : fops) re (ag : aggops fo) pi pf
   stmt_batch_c fo re keyfix ag pi pf on B (wa_q fo) (map Some wa_store) =
     Ok [[Order.VBytes "1"; Order.VInt 2%Z; Order.VInt 2%Z]; [Order.VBytes "2"; Order.VInt 1%Z; Order.VInt 2%Z]].
 Proof. exact wa_rows. Qed.
+
+(* ================================================================== C05 FROM THE QUERY TEXT
+   (appended; Model/AliasText.v, Proofs/AliasTextProofs.v over the text pipeline of
+   Model/PipelineS.v, which evaluates references through their definitions: no cache).
+   expand_stmt: the syntactic expansion of the PARSED statement (every use of a select-field name
+   replaced by the definition of the first field of that name, chains to the end; fields keep
+   their names; ORDER BY / GROUP BY items are names looked up among the fields and stay). *)
+From KV Require Import Base.Num Model.Fold Model.Storage Model.ScanSem Model.ScanProj Model.SelectPlans
+                       Model.Pipeline Model.PipelineS Model.AliasText Proofs.PipelineSProofs
+                       Proofs.AliasTextProofs.
+From KV Require Model.StmtParser Model.Order.
+
+(* the text pipeline is the pipeline restarted from the statement Parser.Parse built, and
+   expanded_text_st is that pipeline on the expanded statement *)
+Theorem text_is_run_select :
+  forall (fo : fops) re (fmt_v : F fo -> string) (ag : aggops fo) pi pf q x fields w d m,
+  front_s fo q = STOk (x, fields, w) ->
+  select_stmt_text_st fo re fmt_v ag pi pf q d m = run_select_st fo re fmt_v ag pi pf x d m /\
+  expanded_text_st fo re fmt_v ag pi pf q d m = run_select_st fo re fmt_v ag pi pf (expand_stmt x) d m.
+Proof.
+  intros. split; [eapply AliasTextProofs.text_is_run_select | eapply expanded_text_is_run_select]; eassumption.
+Qed.
+Print Assumptions text_is_run_select.
+
+(* the expansion keeps the announced names, ORDER BY, GROUP BY, LIMIT and the number of fields *)
+Theorem expand_stmt_keeps : forall x,
+  StmtParser.s_names (expand_stmt x) = StmtParser.s_names x /\
+  StmtParser.s_order (expand_stmt x) = StmtParser.s_order x /\
+  StmtParser.s_group (expand_stmt x) = StmtParser.s_group x /\
+  StmtParser.s_limit (expand_stmt x) = StmtParser.s_limit x /\
+  StmtParser.s_all (expand_stmt x) = StmtParser.s_all x /\
+  List.length (StmtParser.s_fields (expand_stmt x)) = List.length (StmtParser.s_fields x).
+Proof. exact AliasTextProofs.expand_stmt_keeps. Qed.
+Print Assumptions expand_stmt_keeps.
+
+(* FULL STATEMENT row_shape_text (not proved): for every accepted SELECT text, every plan shape,
+   both modes: every row has |FieldNames| columns; projection shapes: column j = value of field j;
+   aggregate shapes: key fields = their value on the group's first pair (Model/AggregateLazy.v).
+   PROVED: projection node (no aggregate, ORDER BY node or LIMIT), row mode.  The other shapes
+   are covered at plan level by row_shape / Properties/C03.v, C07.v, C08.v, C09.v. *)
+Theorem row_shape_text_partial :
+  forall (fo : fops) re (fmt_v : F fo -> string) (ag : aggops fo) pi pf q d pl out,
+  plan_stmt_text fo re fmt_v q = STOk pl ->
+  sp_shape fo pl = SProj ->
+  select_stmt_text fo re fmt_v ag pi pf q d MRow = TOk out ->
+  let c := sp_q fo pl in
+  let pairs := somes (scan_slots (sp_scan fo pl) d) in
+  Forall (fun row => List.length row = List.length (SelectPlans.s_names (F fo) (q_stmt fo c))) out /\
+  Forall2 (row_of_fields fo re ag (q_fields fo c))
+          (filter (fun kv => match filter_row fo re (fst kv) (snd kv) (q_where fo c) with
+                             | Value.Ok true => true | _ => false end) pairs) out.
+Proof. exact AliasTextProofs.row_shape_text_partial. Qed.
+Print Assumptions row_shape_text_partial.
+
+(* FULL STATEMENT alias_text_is_expansion (not proved): for every accepted text q (statement x,
+   no field a bare name, no name standing for a parenthesised list), every store, mode and batch
+   size: same_outcome (select_stmt_text_st q d m) (expanded_text_st q d m).
+   PROVED: the rows of the accepted text are the rows of the trees of its plan with EVERY
+   reference replaced by its definition (projection node, row mode, completed runs).  MISSING:
+   the front end (checker, folder, scan chooser) commutes with expand_stmt -- compared on every
+   run by Corr/C05Text.v (code 3) --, the other nodes, batch mode, failing runs. *)
+Theorem alias_text_is_expansion_partial :
+  forall (fo : fops) re (fmt_v : F fo -> string) (ag : aggops fo) pi pf q d pl out,
+  plan_stmt_text fo re fmt_v q = STOk pl ->
+  sp_shape fo pl = SProj ->
+  select_stmt_text fo re fmt_v ag pi pf q d MRow = TOk out ->
+  let c := sp_q fo pl in
+  no_list_alias (q_where fo c) = true ->
+  no_list_alias_fields (q_fields fo c) = true ->
+  let pairs := somes (scan_slots (sp_scan fo pl) d) in
+  Forall2 (row_of_fields fo re ag (expand_fields (q_fields fo c)))
+          (filter (fun kv => match filter_row fo re (fst kv) (snd kv) (expand (q_where fo c)) with
+                             | Value.Ok true => true | _ => false end) pairs) out.
+Proof. exact AliasTextProofs.alias_text_is_expansion_partial. Qed.
+Print Assumptions alias_text_is_expansion_partial.
+
+(* non-vacuity: a chain of names (p uses m uses n) in the fields and in WHERE; the premises hold,
+   the expanded statement uses no field name any more, and the text and its expansion return the
+   same two rows in row mode and at batch size 2 *)
+Definition at_q : string := "select key, int(value) as n, n + 1 as m, m * n as p where m > 2 & p != 30".
+Definition at_store : Storage.store := [("a", "1"); ("b", "2"); ("c", "5"); ("d", "7")].
+Definition at_rows : list Order.row :=
+  [[Order.VBytes "b"; Order.VInt 2; Order.VInt 3; Order.VInt 6];
+   [Order.VBytes "d"; Order.VInt 7; Order.VInt 8; Order.VInt 56]].
+
+Example alias_text_nonvacuous :
+  forall (fo : fops) re (fmt_v : F fo -> string) (ag : aggops fo) pi pf,
+  (exists pl, plan_stmt_text fo re fmt_v at_q = STOk pl /\ sp_shape fo pl = SProj /\
+     no_list_alias (q_where fo (sp_q fo pl)) = true /\
+     no_list_alias_fields (q_fields fo (sp_q fo pl)) = true) /\
+  (exists x fields w, front_s fo at_q = STOk (x, fields, w) /\ no_bare_fields x = true /\
+     existsb (uses_name (StmtParser.s_names x)) (StmtParser.s_where (expand_stmt x) :: StmtParser.s_fields (expand_stmt x)) = false /\
+     existsb (uses_name (StmtParser.s_names x)) (StmtParser.s_fields x) = true) /\
+  select_stmt_text fo re fmt_v ag pi pf at_q at_store MRow = TOk at_rows /\
+  expanded_text_st fo re fmt_v ag pi pf at_q at_store MRow = STOk at_rows /\
+  select_stmt_text_st fo re fmt_v ag pi pf at_q at_store (MBatch 2) = STOk at_rows /\
+  expanded_text_st fo re fmt_v ag pi pf at_q at_store (MBatch 2) = STOk at_rows.
+Proof.
+  intros. split.
+  { eexists. split; [vm_compute; reflexivity|]. repeat split; vm_compute; reflexivity. }
+  split.
+  { do 3 eexists. split; [vm_compute; reflexivity|]. repeat split; vm_compute; reflexivity. }
+  repeat split; vm_compute; reflexivity.
+Qed.
